@@ -4,8 +4,8 @@
 //! Robustness streams (FRAMEWORK.md): EVERY unpack / pack / round-trip case is executed (a) on the plain `Array<u8>` receiver
 //! (the compared answer), (b) a second time, (c) on `Ok(array)` through `impl ArrayBinaryBits for Result<Array<u8>, ArrayError>`
 //! (the round trip fully chained: `Ok(a).unpack_bits(..).pack_bits(..)`), (d) with every other spelling of the same order
-//! (absent / enum / `&str` / owned `String`; an unknown text in the other text type) on both receivers; any divergence fails
-//! the case.  `binary_repr` is called through `Array::<T>::binary_repr`, the `Result` receiver's associated function and
+//! (absent / enum / `&str` / owned `String`; an unknown text in the other text type), receivers alternating; any divergence
+//! fails the case.  `binary_repr` is called through `Array::<T>::binary_repr`, the `Result` receiver's associated function and
 //! `Numeric::binary_repr`.  The generator adds byte arrays above 128 / 256 / 1024 / 4096 bytes flat and as lanes, bit arrays
 //! around 128*8, 256*8, 1024*8 and 4096*8 bits, `big_shapes()`, `zero_shapes()` and seeded random big inputs.  The ops
 //! `unpack_ref` / `pack_ref` / `roundtrip_ref` are the same real calls; the model answers them on the reference lane
@@ -96,15 +96,16 @@ fn respellings(order: &Order) -> Vec<(&'static str, Order)> {
 }
 
 /// run `f(chained, order)` on the plain receiver (the answer), again, chained, and with every other spelling on both receivers
-fn all_ways(order: &Order, f: &dyn Fn(bool, &Order) -> Result<Array<u8>, ArrayError>) -> String {
+/// (`salt` alternates which receiver takes which respelling, so that every pair is exercised across the run at half the cost)
+fn all_ways(order: &Order, salt: usize, f: &dyn Fn(bool, &Order) -> Result<Array<u8>, ArrayError>) -> String {
     let base = guarded(|| show_u8(&f(false, order)));
     let mut ways: Vec<(String, String)> = vec![
         ("the same call a second time".into(), guarded(|| show_u8(&f(false, order)))),
         ("the call on Ok(array) (Result receiver)".into(), guarded(|| show_u8(&f(true, order)))),
     ];
-    for (label, o) in respellings(order) {
-        ways.push((format!("{label}, plain receiver"), guarded(|| show_u8(&f(false, &o)))));
-        ways.push((format!("{label}, Result receiver"), guarded(|| show_u8(&f(true, &o)))));
+    for (i, (label, o)) in respellings(order).into_iter().enumerate() {
+        if (i + salt) % 2 == 0 { ways.push((format!("{label}, plain receiver"), guarded(|| show_u8(&f(false, &o))))); }
+        else { ways.push((format!("{label}, Result receiver"), guarded(|| show_u8(&f(true, &o))))); }
     }
     for (label, got) in ways {
         let same = got == base || (class_of(&got) == "err" && class_of(&base) == "err");
@@ -138,15 +139,15 @@ fn exec(op: &str, args: &[&str], expected: &str) -> Option<Verdict> {
         "unpack" | "unpack_ref" => {
             let a = parse_bytes(args[0])?; let axis = parse_opt::<isize>(args[1]); let count = parse_opt::<isize>(args[2]);
             let order = parse_order(args[3])?;
-            all_ways(&order, &|chained, o| unpack(&a, chained, axis, count, o))
+            all_ways(&order, args[0].len() + args[1].len(), &|chained, o| unpack(&a, chained, axis, count, o))
         }
         "pack" | "pack_ref" => {
             let a = parse_bytes(args[0])?; let axis = parse_opt::<isize>(args[1]); let order = parse_order(args[2])?;
-            all_ways(&order, &|chained, o| pack(&a, chained, axis, o))
+            all_ways(&order, args[0].len() + args[1].len(), &|chained, o| pack(&a, chained, axis, o))
         }
         "roundtrip" | "roundtrip_ref" => {
             let a = parse_bytes(args[0])?; let axis = parse_opt::<isize>(args[1]); let order = parse_order(args[2])?;
-            all_ways(&order, &|chained, o| roundtrip(&a, chained, axis, o))
+            all_ways(&order, args[0].len() + args[1].len(), &|chained, o| roundtrip(&a, chained, axis, o))
         }
         "to_bit_order" => {
             let r = match parse_order(args[0])? {
@@ -240,8 +241,8 @@ fn robustness(thorough: bool, seed: u64, out: &mut dyn FnMut(String)) {
     let spell = |little: bool, k: usize| if little { ORDERS_LITTLE[k % 3] } else { ORDERS_BIG[k % 4] };
 
     // (R1.a) flat byte arrays above 128 / 256 / 1024 / 4096 bytes, byte counts divisible by 8 and not; rank 1 also by axis
-    let mut sizes: Vec<usize> = vec![8, 9, 16, 17, 64, 100, 120, 127, 128, 129, 135, 136, 144, 255, 256, 257, 264, 300, 512, 520, 1023, 1024, 1030, 1032, 2048, 2056, 4096, 4100, 4104];
-    if thorough { sizes.extend([1016, 1040, 1536, 2047, 3000, 4095, 4097, 4112, 5000, 8192, 8200]); }
+    let mut sizes: Vec<usize> = vec![8, 9, 16, 17, 64, 100, 120, 127, 128, 129, 135, 136, 144, 255, 256, 257, 264, 300, 512, 520, 1023, 1024, 1030, 1032, 2048, 2056, 4096, 4100];
+    if thorough { sizes.extend([4104, 1016, 1040, 1536, 2047, 3000, 4095, 4097, 4112, 5000, 8192, 8200]); }
     for &n in &sizes {
         for little in [true, false] {
             k += 1;
@@ -338,7 +339,7 @@ fn robustness(thorough: bool, seed: u64, out: &mut dyn FnMut(String)) {
         if n <= 1100 { out(format!("unpack {a} none none {}", spell(k % 2 == 0, k + 1))); }
         for ax in 0..r {
             let axs = if (ax + k) % 2 == 0 { ax.to_string() } else { (ax as isize - r as isize).to_string() };
-            if n > 2100 && !thorough && (ax != k % r || r == 1) { continue; }
+            if n > 2100 && !thorough { continue; }      // quick: above 2100 elements by axis only the single 4104-byte lane of (R1.b)
             for little in [true, false] {
                 if !little && !thorough && (n > 2100 || ax != k % r) { continue; }
                 out(format!("{} {a} {axs} {}", opname_w("roundtrip", n, &axs, thorough || (little && ax == k % r)), spell(little, k + ax)));
@@ -581,5 +582,5 @@ fn nontrivial(op: &str, args: &[&str]) -> bool {
 
 fn main() {
     harness_main(Spec { prop: "C19", gen, exec, nontrivial, hang_secs: 20,
-        rule: "exhaustive: all 256 byte values alone x 7 order spellings (absent, enum, &str, String); every shape rank<=3 len<=3 (+ rank-4 shapes: 3 in quick, all of len<=2 and three of len<=3 in thorough) filled so that every byte value occurs, x flat form and every axis (positive and negative spelling) x both orders, unpack and pack(unpack); bit arrays of every length 1..40 (single-bit, constant, alternating, random, values>1) flat and as lanes on every axis position; count from -(8n+2) to 8n+2 flat and selected counts by axis; 21 spellings of the order option as &str and String; out-of-range axes; empty arrays; binary_repr + parse-back for all u8/i8 (all u16/i16 in thorough), boundaries and powers of two +-1 for the wider types; + seeded random arrays rank<=3 len<=5 and rank 4 len<=3 (lane length <=20 for pack). distinct = distinct case lines; non-trivial = array with >=2 elements / |number|>=2" });
+        rule: "exhaustive: all 256 byte values alone x 7 order spellings (absent, enum, &str, String); every shape rank<=3 len<=3 (+ rank-4 shapes: 3 in quick, all of len<=2 and three of len<=3 in thorough) filled so that every byte value occurs, x flat form and every axis (positive and negative spelling) x both orders, unpack and pack(unpack); bit arrays of every length 1..40 (single-bit, constant, alternating, random, values>1) flat and as lanes on every axis position; count from -(8n+2) to 8n+2 flat and selected counts by axis; 21 spellings of the order option as &str and String; out-of-range axes; empty arrays; binary_repr + parse-back for all u8/i8 (all u16/i16 in thorough), boundaries and powers of two +-1 for the wider types; + seeded random arrays rank<=3 len<=5 and rank 4 len<=3 (lane length <=20 for pack). distinct = distinct case lines; non-trivial = array with >=2 elements / |number|>=2. ROBUSTNESS STREAMS: flat byte arrays of 8..4100 bytes (thorough ..8200; around 128/256/1024/2048/4096, byte counts divisible by 8 and not) x both orders, round trip + unpack + count around the length and the 64-bit word boundaries; the same lengths as lanes on every axis position of rank-2/3 arrays (lanes 128..1032 bytes, one lane of 4104 bytes; thorough ..4100x2); bit arrays of 1017..1032, 2041..2056, 8185..8200 bits and 504..32768 bits (thorough ..65537) flat and as lanes, bits and values>1; lib big_shapes() (axis lengths 7..17 in every position, >256/>1024/>4096 elements) flat and along every axis (one axis above 2100 elements), bytes and bits; lib zero_shapes() x 7 axes x 4 order spellings x unpack/pack/round trip/count; seeded random big arrays. By axis above 150 elements (thorough 300; selected cases up to 300 / 2056) the model answers on the reference lane semantics alone (ops *_ref) because the pipeline model of apply_along_axis is quadratic. EVERY unpack/pack/round-trip case is run on the plain receiver (compared), a second time, on Ok(array) through the Result receiver (round trip fully chained), and with every other spelling of the same order (absent/enum/&str/String), receivers alternating; binary_repr through Array::binary_repr, the Result receiver's associated function and Numeric::binary_repr, incl. values around 2^53, 2^62, 2^63, the type limits and seeded full-range values of all ten integer types" });
 }
